@@ -60,6 +60,19 @@ type Program struct {
 	LdFlags  string // value for -ldflags (from ldflags features), "" if none
 	// LdValuesUsed are the injected -X values.
 	LdValuesUsed []string
+	// Lits are the marker literals of "literals" features (C09).
+	Lits   []LitInfo
+	curPkg int
+}
+
+// LitInfo describes one marker literal.
+type LitInfo struct {
+	Text   string `json:"text"`
+	Len    int    `json:"len"`
+	Form   string `json:"form"`   // string | bytes | array | concat
+	Ctx    string `json:"ctx"`    // syntactic position
+	Exempt string `json:"exempt"` // "" or the documented reason it may stay
+	Pkg    int    `json:"pkg"`
 }
 
 // Options steer Draw.
@@ -177,6 +190,8 @@ type featDef struct {
 	mayRemain []string
 	// needs marks toolchain needs: "asm", "linkname", "ldflags", "test".
 	needs []string
+	// gen, when set, produces the provider and use templates dynamically.
+	gen func(fi int, f Feat, p *Program) (prov, use string)
 	// ldX lists provider variable tokens (e.g. "V1") set through -ldflags=-X.
 	ldX []string
 	// noDashPath: the feature references the provider by its full path from
@@ -394,6 +409,10 @@ func Render(s Spec) *Program {
 			return b.String()
 		}
 		provTmpl, useTmpl, useDeclTmpl := def.prov, def.use, def.useDecl
+		if def.gen != nil {
+			p.curPkg = f.Prov
+			provTmpl, useTmpl = def.gen(fi, f, p)
+		}
 		if def.sinks != "" {
 			provTmpl += "\nvar Sink@MKw = []any{" + def.sinks + "}\n"
 			useTmpl += "\nemit(sprint(\"sink \", len(@QSink@MKw)))\n"
